@@ -846,7 +846,7 @@ pub fn run(tier: Tier) -> i32 {
         &Part {
             name: "queue-positions",
             rule: "0-9 commands of 13 kinds (browse, browse_cache, stop_browse, resolve_hostname with/without timeout, stop_resolve_hostname, register, unregister, verify, monitor, get_metrics, status, option setters, further shutdowns) issued from three clones with a shutdown inserted at a generated position and loop iterations after a quarter of the commands, on 1-2 interfaces; in a quarter of the cases the browse opened at the start belongs to a slow client whose channel is full when the batch begins; non-trivial = always (classified by queue position)",
-            cases: scale(tier.pick(40_000, 1_000_000)),
+            cases: scale(tier.pick(40_000, 500_000)),
             max_shrink_iters: 500,
             strategy: &queue_strategy,
             check: &check_queue,
